@@ -410,6 +410,32 @@ func (m *MonC03) OnEnd(w *World) []Violation {
 				m.class("tail_checked")
 			}
 		}
+		// ... and for held resources that have received no custom event at all in
+		// their current episode: every custom event that reached the gateway after
+		// the frame that handed the resource over is owed to the client
+		if c.Dialed && !c.EOF && !c.Closed && w.mq.PendingCount() == 0 {
+			for _, rid := range c.Ref.HeldRIDs() {
+				r := c.Ref.Held[rid]
+				if r.Deleted || r.Type == 'e' || strings.Contains(rid, "?") {
+					continue
+				}
+				if _, has := eps[fmt.Sprintf("%s#%d", rid, r.Episode)]; has {
+					continue
+				}
+				name, _ := splitRID(strings.Replace(rid, "{cid}", c.CID, -1))
+				var owed []int
+				for i, t := range m.deliveredT[name] {
+					if t > r.HandedT {
+						owed = append(owed, m.delivered[name][i])
+					}
+				}
+				if len(owed) > 0 {
+					m.class("silent_holder_checked")
+					vs = append(vs, Violation{Property: "C03", Class: "tail_missing", Conn: c.Idx, RID: rid, T: r.HandedT, Step: w.step,
+						Message: fmt.Sprintf("c%d: holds %s (handed over at t=%d) and has received none of its custom events, but events seq %v reached the gateway after that: they were skipped", c.Idx, rid, r.HandedT, owed)})
+				}
+			}
+		}
 		// queue/unqueue cycles: episodes in which events arrived after >=2 frames carrying resources
 		if len(eps) > 0 {
 			m.class("episodes_with_customs")
